@@ -23,6 +23,7 @@ What is not in these theorems: references emitted against a label already bound 
 is `-(4 + imm size)` resp. `-1`) is checked by the monitor on every explored program, not proved here.
 -/
 import AsmjitVerif.Lemmas.RefInvResolve
+import Std.Tactic.BVDecide
 namespace AsmjitVerif.CodeHolder
 open AsmjitVerif.Offset
 
@@ -94,6 +95,16 @@ theorem count_zero_all_resolved (arch : Arch) (base : BitVec 64) (ops : List Op)
   rcases never_truncates arch base ops hops g hg with h | ⟨_, _, h⟩
   · exact h
   · rw [hc] at h; cases h
+
+/-- what the decoded displacement means: site address + displacement = label address + addend (all relative to the base).
+For x86 the addend logged by `EmitRel` is `-(field size + trailing immediate size)` (+ the operand's own displacement), so this is
+the CPU's `end of instruction + disp = label (+ disp)`; for AArch64 the site is the instruction (`pc + imm = label + addend`). -/
+theorem crossDisp_target (secs : List Section) (lsec : Nat) (loff : BitVec 64) (fsec foff : Nat) (rel : BitVec 64) :
+    (secOffset secs fsec + BitVec.ofNat 64 foff) + crossDisp secs lsec loff fsec foff rel = (secOffset secs lsec + loff) + rel := by
+  unfold crossDisp
+  generalize secOffset secs fsec + BitVec.ofNat 64 foff = a
+  generalize secOffset secs lsec + loff = t
+  bv_omega
 
 /-- non-vacuity: a two-section x86-64 program logs three references (forward jz, RIP-relative lea with the label bound later
 in another section, cross-section jmp to a bound label); after flatten + resolve the counter is 0 -/
